@@ -2,7 +2,7 @@
    Property theorems only (each closed by [exact] of a lemma, followed by Print Assumptions).
    Model: M_Codec (profile/proto.go + profile/encode.go + serialize/ParseUncompressed/Copy);
    specification: S_Codec (validity contract, NumUnit contract, the normalisation proto3 forces). *)
-From PV Require Import M_Codec S_Codec L_Codec_Wire L_Codec_Msg L_Codec_Tab L_Codec_Regroup L_Codec_Main L_Codec_Norm R_C01 L_C01_Driver.
+From PV Require Import M_Codec S_Codec L_Codec_Wire L_Codec_Msg L_Codec_Tab L_Codec_Regroup L_Codec_Main L_Codec_Norm R_C01 L_C01_Driver M_Valid L_Codec_Range.
 Open Scope string_scope.
 Open Scope list_scope.
 Open Scope Z_scope.
@@ -104,6 +104,17 @@ Theorem parse_is_fixpoint : forall p r',
   parse_uncompressed (enc_profile r') = Ok (normalize p) /\ serialize (normalize p) = Ok (enc_profile r').
 Proof. exact reparse_fixpoint. Qed.
 Print Assumptions parse_is_fixpoint.
+
+(* the same for "anything the parser returns": CheckValid-accepted output of the protobuf parser is
+   valid with well-formed units (L_Codec_Range, the bridge from C02), so writing it and parsing the
+   bytes back gives its normal form, which from then on is reproduced exactly, bytes included *)
+Theorem parser_output_survives_write_then_parse : forall data q r r',
+  parse_uncompressed data = Ok q -> check_valid q = true ->
+  pre_encode q = Ok r -> size_ok r -> pre_encode (normalize q) = Ok r' -> size_ok r' ->
+  serialize q = Ok (enc_profile r) /\ parse_uncompressed (enc_profile r) = Ok (normalize q) /\
+  serialize (normalize q) = Ok (enc_profile r') /\ parse_uncompressed (enc_profile r') = Ok (normalize q).
+Proof. exact parser_output_roundtrip_lemma. Qed.
+Print Assumptions parser_output_survives_write_then_parse.
 
 (* ---- the driver path (pprof -proto re-read): the only step between fetch and write that touches what
    a reader sees is unsourceMappings; it preserves every frame shown unless the profile is in F34 ---- *)
